@@ -22,13 +22,18 @@ type Family20 struct {
 	Prefix B      `json:"prefix"`
 	Unit   B      `json:"unit"`
 	Suffix B      `json:"suffix"`
+	Mid    B      `json:"mid,omitempty"`   // two-part families: prefix + unit×n + mid + unit2×n + suffix — a second
+	Unit2  B      `json:"unit2,omitempty"` // repeated action working on what the first repetition built up
 	Base   B      `json:"base,omitempty"`  // optional base; "{N}" in it is replaced by "/a"×n
 	Op     string `json:"op"`              // what is measured (see RunOp20)
 	Sizes  []int  `json:"sizes,omitempty"` // default 1000, 4000, 16000
 }
 
 func (f Family20) input(n int) string {
-	return string(f.Prefix) + strings.Repeat(string(f.Unit), n) + string(f.Suffix)
+	if f.Unit2 != "" {
+		return string(f.Prefix) + strings.Repeat(string(f.Unit), n) + string(f.Mid) + strings.Repeat(string(f.Unit2), n) + string(f.Suffix)
+	}
+	return string(f.Prefix) + strings.Repeat(string(f.Unit), n) + string(f.Mid) + string(f.Suffix)
 }
 
 func (f Family20) base(n int) string {
@@ -118,6 +123,22 @@ func Prepare20(f Family20, n int) (measured func(), ok bool) {
 	case "resolve-up":
 		ref := strings.Repeat("../", n)
 		return func() { _, _ = u.Parse(ref) }, true
+	case "clear-hash":
+		return func() { u.SetHash("") }, true
+	case "clear-search":
+		return func() { u.SetSearch("") }, true
+	case "small-setters":
+		// short values set on a long URL: each setter may look at the whole URL, but only once
+		return func() {
+			u.SetHash("x")
+			u.SetSearch("y=z")
+			u.SetPort("8")
+			u.SetUsername("u")
+			u.SetPassword("p")
+			u.SetHostname("h2")
+			u.SetProtocol("https")
+			_ = u.Href(false)
+		}, true
 	case "reparse":
 		h := u.Href(false)
 		return func() { _, _ = url.Parse(h) }, true
@@ -219,7 +240,10 @@ func verdict20(rep Report20) string {
 		return ""
 	}
 	f := rep.Family
-	desc := fmt.Sprintf("%s on %s + %s×n + %s", f.Op, quote(clip(string(f.Prefix))), quote(string(f.Unit)), quote(clip(string(f.Suffix))))
+	desc := fmt.Sprintf("%s on %s + %s×n + %s", f.Op, quote(clip(string(f.Prefix))), quote(string(f.Unit)), quote(clip(string(f.Mid)+string(f.Suffix))))
+	if f.Unit2 != "" {
+		desc = fmt.Sprintf("%s on %s + %s×n + %s + %s×n + %s", f.Op, quote(clip(string(f.Prefix))), quote(string(f.Unit)), quote(clip(string(f.Mid))), quote(string(f.Unit2)), quote(clip(string(f.Suffix))))
+	}
 	if f.Base != "" {
 		desc += " against base " + quote(clip(string(f.Base)))
 	}
@@ -338,6 +362,34 @@ var FixedFamilies20 = func() []Family20 {
 		}
 		add("setter-"+s, "", unit, "", "", "set:"+s)
 	}
+	// two-part families: the second repetition acts on the state the first one built up
+	add2 := func(name, prefix, unit, mid, unit2, suffix, base string, ops ...string) {
+		for _, op := range ops {
+			out = append(out, Family20{Name: name + "/" + op, Prefix: B(prefix), Unit: B(unit), Mid: B(mid), Unit2: B(unit2), Suffix: B(suffix), Base: B(base), Op: op})
+		}
+	}
+	add2("down-then-up", "http://h", "/a", "", "/..", "", "", "parse", "gsb", "semantic")
+	add2("down-then-up-file", "file://", "/a", "", "/..", "", "", "parse", "gsb")
+	add2("down-then-up-nonspecial", "foo://h", "/a", "", "/..", "", "", "parse")
+	add2("down-then-up-encoded", "http://h", "/a", "", "/%2e%2E", "", "", "parse", "gsb")
+	add2("down-then-dots", "http://h", "/a", "", "/.", "", "", "parse", "semantic")
+	add2("down-then-slashes", "http://h", "/a", "", "/", "", "", "parse", "gsb", "semantic")
+	add2("up-vs-long-file-base", "", "", "", "../", "", "file://{N}", "parse")
+	add2("up-vs-long-nonspecial-base", "", "", "", "../", "", "foo://h{N}", "parse")
+	add2("invalid-byte-then-backslashes", "http://h/\xff", "", "", "\\", "", "", "parse", "gsb", "semantic", "report")
+	add2("invalid-bytes-then-bad-escapes", "http://h/", "\xff", "", "%zz", "", "", "gsb", "semantic")
+	add2("long-path-then-bad-escapes", "http://h/", "a", "", "%zz", "", "", "parse", "report", "gsb")
+	add2("long-host-then-path-errors", "http://", "a", ".com/", "\\", "", "", "parse", "report")
+	add2("long-userinfo-then-ats", "http://", "u", "", "@", "h/", "", "parse", "gsb")
+	add2("long-password-then-ats", "http://u:", "p", "", "@", "h/", "", "parse")
+	add2("long-query-then-fragment", "http://h/?", "a=b&", "#", "f", "", "", "parse", "href", "searchparams", "semantic", "whatwgsort")
+	add2("long-path-then-query", "http://h", "/a", "?", "&x=y", "", "", "parse", "href", "getters", "gsb", "semantic", "whatwgsort")
+	add2("opaque-path-then-spaces", "a:", "b", "", " ", "#f", "", "parse", "href", "clear-hash", "small-setters")
+	add2("opaque-path-then-spaces-query", "a:", "b", "", " ", "?q", "", "parse", "clear-search")
+	add2("long-path-long-query", "http://h", "/a", "?", "b=c&", "#f", "", "small-setters", "clear-search", "clear-hash", "clone", "reparse")
+	add2("labels-then-dots", "http://", "a.", "b", ".", "/", "", "parse", "gsb", "semantic")
+	add2("tabs-then-text", "http://h/", "\t", "", "a", "", "", "parse", "gsb")
+	add2("text-then-tabs", "http://h/", "a", "", "\t", "", "", "parse", "gsb")
 	add("setter-host-at", "", "@", "h", "", "set:host")
 	add("setter-pathname-dots", "", "/..", "", "", "set:pathname")
 	return out
@@ -372,7 +424,7 @@ func Families20(tier string) []Family20 {
 }
 
 var c20Units = []string{"a", "/", "/a", "/.", "/..", "@", ":", "%", "%41", "%2e", "é", "\xff", "&a=b", "&", "=", "+", ".", "a.", "1.", "\\", "?", "#", " ", "\t", "[", "]", "0", "0x", "|", "C|/", "'", "\"", "<", "{", "^", ";", "~", "xn--", "%25", "\u00ad", "ß", "💩"}
-var c20Ops = []string{"parse", "parse", "gsb", "gsb", "semantic", "semantic", "href", "getters", "pathname", "searchparams", "clone", "whatwgsort", "reparse", "resolve", "report", "sp-sort", "set:search", "set:pathname", "set:username", "set:hash", "set:host", "set:hostname"}
+var c20Ops = []string{"parse", "parse", "gsb", "gsb", "semantic", "semantic", "href", "getters", "pathname", "searchparams", "clone", "whatwgsort", "reparse", "resolve", "report", "sp-sort", "set:search", "set:pathname", "set:username", "set:hash", "set:host", "set:hostname", "clear-hash", "clear-search", "small-setters"}
 var c20Templates = []string{"http://u:p@h:81/p/q?a=b&c=d#f", "foo://u@h/p?q#f", "foo:opaque?q#f", "file:///C:/p?q#f", "https://a.b.c/x/../y/./z?%41=%42#%43", "http://h", "a:", "//h/p", "/p?q", "?q", "#f", ""}
 
 // c20Slots: the repeated unit goes into one structural position ("{}") of a URL.
@@ -397,6 +449,11 @@ func Gen20(t *rapid.T) Family20 {
 		unit = gen.Pick(t, "unit", c20Units)
 	}
 	f := Family20{Prefix: B(tpl[:pos]), Unit: B(unit), Suffix: B(tpl[pos:]), Op: gen.Pick(t, "op", c20Ops)}
+	if rapid.IntRange(0, 2).Draw(t, "twoPart") == 0 {
+		// a second repetition right after the first (optionally behind a delimiter)
+		f.Mid = B(gen.Pick(t, "mid", []string{"", "", "/", "?", "#", "@", ":", "."}))
+		f.Unit2 = B(gen.Pick(t, "unit2", c20Units))
+	}
 	if rapid.IntRange(0, 4).Draw(t, "withBase") == 0 {
 		f.Base = B(gen.Pick(t, "base", []string{"http://h/b/c?d#e", "file:///C:/x/y", "foo://h/p/q", "http://h{N}", "foo:/a{N}"}))
 	}
@@ -408,7 +465,7 @@ func Gen20(t *rapid.T) Family20 {
 
 var P20 = core.Register(core.Prop[Family20]{
 	ID: "C20",
-	Rule: "repetition families prefix + unit×n + suffix (optional base, one measured operation): a fixed list covering every place the statement names (scheme-specific part, credentials, many '@', opaque / domain / dotted hosts, segments, slashes, dot segments, query text, parameters, fragment, escapes, non-ASCII, invalid bytes, tabs, spaces, port digits, resolution against long bases, the setters with long values; operations Parse, Href, Pathname, all getters, SearchParams, Clone, reparse, resolve, the predefined profiles) plus generated families (insertion point in a URL template, 1..2 units from the token alphabet, random operation); " +
+	Rule: "repetition families prefix + unit×n + suffix and two-part families prefix + unit×n + mid + unit2×n + suffix, where the second repetition acts on what the first built up (a deep path then '..' segments, an invalid byte then many validation errors, a long opaque path then spaces) (optional base, one measured operation): a fixed list covering every place the statement names (scheme-specific part, credentials, many '@', opaque / domain / dotted hosts, segments, slashes, dot segments, query text, parameters, fragment, escapes, non-ASCII, invalid bytes, tabs, spaces, port digits, resolution against long bases, the setters with long values; operations Parse, Href, Pathname, all getters, SearchParams, Clone, reparse, resolve, the predefined profiles) plus generated families (insertion point in a URL template, 1..2 units from the token alphabet, random operation); " +
 		"oracle: deterministic cost counters — bytes allocated, number of allocations (runtime.MemStats deltas) and, for the fixed families, statements executed inside the library (coverage counters of a -cover build) — measured at n, 4n, 16n; violation iff a counter's growth exponent log4(cost(4n)/cost(n)) exceeds 1.5 at the largest pair and 1.4 at the pair below (quadratic measures about 2.0, linear below 1.2); " +
 		"non-trivial = the cost at the largest size exceeds 3x the cost of the empty family plus a small constant (the repeated unit is really processed); distinct by family",
 	Gen:   Gen20,
